@@ -36,13 +36,17 @@ def _generators():
     return gens
 
 
-def regen_all(repo):
-    key = repo
+def regen_all(repo, only=None):
+    """`only`: restrict to these targets (used for runs against a scratch copy of the repository, so that
+    they do not rewrite generated files other checks are using)"""
+    key = (repo, tuple(sorted(only)) if only is not None else None)
     if key in _cache:
         return _cache[key]
     results = []
     manifest = {}
     for target, gen in _generators():
+        if only is not None and target not in only:
+            continue
         path = os.path.join(LEAN, 'CopVerif', 'Gen', f'{target}.lean')
         try:
             text, report = gen(repo)
@@ -63,6 +67,8 @@ def regen_all(repo):
         except Exception:
             results.append({'target': target, 'ok': False, 'detail': traceback.format_exc()[-500:], 'changed': False})
     try:
+        if only is not None:
+            raise OSError('partial run: keep the full manifest')
         os.makedirs(os.path.join(LEAN, '.lake'), exist_ok=True)
         with open(os.path.join(LEAN, '.lake', 'gen_manifest.json'), 'w') as f:
             json.dump(manifest, f, indent=1)
